@@ -149,22 +149,6 @@ def _headers(ref):
     return out
 
 
-def n_header_markers(ref, src):
-    """line terminator or comment between the closing `)` of an if/for/while/with header and a body
-    that starts with a regular expression literal (layout before and inside the parentheses was
-    fixed in 7c5b67e)"""
-    n = 0
-    for kw, lp, rp, kind in _headers(ref):
-        body_first = rp + 1
-        if body_first >= len(ref.tokens) or ref.tokens[body_first].type != 'regex':
-            continue
-        g = src.gaps[body_first]
-        if has_lt(g) or has_comment(g):
-            src.gaps[body_first] = ' '
-            n += 1
-    return n
-
-
 def n_regex_after_funcdecl(ref, src):
     """statement starting with a regex literal right after the `}` of a function declaration"""
     n = 0
@@ -212,7 +196,6 @@ NEUTRALISERS = [
     ('c03.getset_ident_lexed_as_accessor', n_getset_ident),
     ('c03.accessor_keyword_gap', n_accessor_gap),
     ('c04.reserved_prop_restricted_lt', n_reserved_prop_restricted_lt),
-    ('c05.header_paren_markers', n_header_markers),
     ('c05.regex_after_funcdecl', n_regex_after_funcdecl),
     ('c04.asi_before_prefix_incdec', n_asi_before_prefix_incdec),
     ('c03.ident_unicode_escape', n_ident_escape),
